@@ -164,6 +164,10 @@ func (m *machine) visitInstr(fr *frame, instr ssa.Instruction) (ret bool, jump b
 	case *ssa.BinOp:
 		fr.set(instr, m.binop(instr, fr.get(instr.X), fr.get(instr.Y)))
 	case *ssa.Call:
+		if m.initDepth > 0 && fr.fn.Name() == "init" && fr.fn.Parent() == nil {
+			m.initCall(fr, instr)
+			break
+		}
 		fn, args := m.prepareCall(fr, &instr.Call)
 		r := m.call(fr, instr.Pos(), fn, args)
 		fr.set(instr, r)
@@ -303,6 +307,36 @@ func (m *machine) visitInstr(fr *frame, instr ssa.Instruction) (ret bool, jump b
 		panic(engineError{fmt.Sprintf("unexpected instruction: %T", instr)})
 	}
 	return false, false
+}
+
+// initCall executes one call of a package initialiser leniently: calls of other
+// packages' init are skipped (packages initialise lazily), and a call that cannot be
+// executed leaves the zero value (recorded as a cut).
+func (m *machine) initCall(fr *frame, instr *ssa.Call) {
+	if f, ok := instr.Call.Value.(*ssa.Function); ok && f.Name() == "init" && f.Pkg != nil && f.Pkg != fr.fn.Pkg {
+		fr.set(instr, nil)
+		return
+	}
+	defer func() {
+		if r := recover(); r != nil {
+			switch r.(type) {
+			case targetPanic, engineError:
+				m.E.noteCut(fmt.Sprintf("package init: call at %s left as zero value: %.120v", m.pos(instr.Pos()), r))
+				if instr.Type() != nil {
+					if tt, ok := instr.Type().(*types.Tuple); ok && tt.Len() == 0 {
+						fr.set(instr, nil)
+					} else {
+						fr.set(instr, zero(instr.Type()))
+					}
+				}
+			default:
+				panic(r)
+			}
+		}
+	}()
+	fn, args := m.prepareCall(fr, &instr.Call)
+	r := m.call(fr, instr.Pos(), fn, args)
+	fr.set(instr, r)
 }
 
 func (m *machine) elemScalarW(t types.Type) (int, bool) {
